@@ -127,6 +127,9 @@ typedef struct {
     obuf log; obuf errs;
     int first;
     cif_loop_tp *cur_loop;  /* walking: the loop whose packets are being presented */
+    int setcat, nloops;     /* parsing: loop_start assigns the category c<k> to the k-th loop (the use shown in misc/parser_callbacks.c) */
+    int nest_at, nest_buf;  /* parsing: at handler callback #nest_at a complete, independent cif_parse of buffer nest_buf is made */
+    long ws_total, ws_bad, ws_events; size_t doc_units;   /* syn=2: whitespace callbacks are validated and summed instead of logged */
     int stop_seen;      /* a handler has answered END or a positive code */
     int bad_after_stop; /* handler callbacks delivered after that */
 } pctx;
@@ -148,9 +151,11 @@ static int err_cb(int code, size_t line, size_t column, const UChar *text, size_
     return 0;
 }
 
+static void nested_parse(pctx *c);
 static int respond(pctx *c) {
     int k = c->ncalls++, i;
     if (c->stop_seen) c->bad_after_stop += 1;
+    if (c->in_parse && c->nest_buf >= 0 && k == c->nest_at) nested_parse(c);
     for (i = 0; i < c->nprog; i++) if (c->prog_idx[i] == k) {
         int r = c->prog_resp[i];
         if (r == CIF_TRAVERSE_END || r > 0) c->stop_seen = 1;
@@ -186,14 +191,8 @@ static void log_loop(pctx *c, const char *ev, cif_loop_tp *l) {
     log_sep(c);
     ob_printf(&c->log, "[\"%s\",", ev);
     if (!l) ob_puts(&c->log, "null,null");
-    else if (c->in_parse && l->loop_num < 0) {
-        /* the parser hands a synthetic, unattached loop object to loop_start: only its own fields are meaningful */
-        int i;
-        ob_putc(&c->log, '[');
-        for (i = 0; l->names && l->names[i]; i++) { if (i) ob_putc(&c->log, ','); ob_jstr(&c->log, l->names[i]); }
-        ob_puts(&c->log, "],");
-        ob_jstr(&c->log, l->category);
-    } else {
+    else {
+        /* also for the provisional loop object the parser hands to loop_start: handlers are meant to query it (misc/parser_callbacks.c) */
         UChar **names = NULL; UChar *cat = NULL; int rc = cif_loop_get_names(l, &names), i;
         ob_putc(&c->log, '[');
         if (rc == CIF_OK) { for (i = 0; names[i]; i++) { if (i) ob_putc(&c->log, ','); ob_jstr(&c->log, names[i]); free(names[i]); } free(names); }
@@ -205,8 +204,29 @@ static void log_loop(pctx *c, const char *ev, cif_loop_tp *l) {
     }
     ob_putc(&c->log, ']');
 }
-static int h_loop_start(cif_loop_tp *l, void *d) { pctx *c = d; c->cur_loop = c->in_parse ? NULL : l; if (c->log_handlers) log_loop(c, "loop_start", l); return respond(c); }
-static int h_loop_end(cif_loop_tp *l, void *d) { pctx *c = d; c->cur_loop = NULL; if (c->log_handlers) log_loop(c, "loop_end", l); return respond(c); }
+/* walking: at loop_start and loop_end no iterator of the walker is open, so the handler may iterate over the loop itself */
+static void probe_iterate(pctx *c, const char *ev, cif_loop_tp *l) {
+    if (!c->in_parse && l && c->log_handlers) {
+        cif_pktitr_tp *it = NULL; int rc = cif_loop_get_packets(l, &it);
+        if (rc == CIF_OK) { rc = cif_pktitr_next_packet(it, NULL); (void) cif_pktitr_abort(it); if (rc == CIF_OK) return; }
+        if (rc == CIF_EMPTY_LOOP) return;
+        log_sep(c); ob_printf(&c->log, "[\"bad-query\",\"%s: iterating over the loop handed to the callback answers %d\"]", ev, rc);
+    }
+}
+static int h_loop_start(cif_loop_tp *l, void *d) {
+    pctx *c = d; c->cur_loop = c->in_parse ? NULL : l;
+    if (c->in_parse && c->setcat && l) {
+        /* setcat=1: every loop, setcat=2: the first loop only.  The answer is not judged: for the provisional loop of a storing
+         * parse the library applies the category and answers CIF_INVALID_HANDLE (no stored loop has that number yet) */
+        UChar cat[16]; char b[16]; int i, k = c->nloops++; snprintf(b, sizeof b, "c%d", k);
+        for (i = 0; b[i]; i++) cat[i] = (UChar) b[i]; cat[i] = 0;
+        if (c->setcat == 1 || k == 0) (void) cif_loop_set_category(l, cat);
+    }
+    if (c->log_handlers) log_loop(c, "loop_start", l);
+    probe_iterate(c, "loop_start", l);
+    return respond(c);
+}
+static int h_loop_end(cif_loop_tp *l, void *d) { pctx *c = d; c->cur_loop = NULL; if (c->log_handlers) log_loop(c, "loop_end", l); probe_iterate(c, "loop_end", l); return respond(c); }
 /* while its packets are presented the loop handle received in loop_start is still valid for queries */
 static void query_cur_loop(pctx *c, const char *ev) {
     if (c->cur_loop && c->log_handlers) {
@@ -233,7 +253,24 @@ static void syn(pctx *c, const char *ev, size_t line, size_t col, const UChar *t
     ob_jstr_n(&c->log, tok, (long) len);
     ob_putc(&c->log, ']');
 }
-static void s_ws(size_t line, size_t col, const UChar *tok, size_t len, void *d) { syn((pctx *) d, "ws", line, col, tok, len); }
+static void s_ws(size_t line, size_t col, const UChar *tok, size_t len, void *d) {
+    pctx *c = d;
+    if (c->log_syntax == 2) {
+        /* every unit reported must be a blank, a line terminator or part of a comment; the run cannot be longer than the input */
+        size_t i; int in_comment = 0;
+        c->ws_events++;
+        if (len > c->doc_units) { c->ws_bad++; return; }
+        for (i = 0; i < len; i++) {
+            UChar u = tok[i];
+            if (u == '\n' || u == '\r') in_comment = 0;
+            else if (u == '#') in_comment = 1;
+            else if (!in_comment && u != ' ' && u != '\t') { c->ws_bad++; return; }
+        }
+        c->ws_total += (long) len;
+        return;
+    }
+    syn(c, "ws", line, col, tok, len);
+}
 static void s_kw(size_t line, size_t col, const UChar *tok, size_t len, void *d) { syn((pctx *) d, "kw", line, col, tok, len); }
 static void s_dn(size_t line, size_t col, const UChar *tok, size_t len, void *d) { syn((pctx *) d, "dn", line, col, tok, len); }
 
@@ -266,6 +303,22 @@ static const char *kv(toks *t, const char *key) {
 /* parse <Cdst|new:C<n>|-> B<n> [k=v ...]
  * options: p2= (prefer_cif2) fold= prefix= depth= ws= eol= (hex bytes) enc= force= eh=accept|die|null|ignore|reject
  *          rej=<k>:<code>  opts=null (pass NULL options)  h=1 (handlers) syn=1 (syntax callbacks) prog=k:r,...  */
+/* a complete, independent parse made from inside a handler callback of another parse (its result is discarded) */
+static int nested_err(int code, size_t line, size_t col, const UChar *text, size_t len, void *d) { (void) code; (void) line; (void) col; (void) text; (void) len; (void) d; return 0; }
+static void nested_parse(pctx *c) {
+    struct cif_parse_opts_s *o = NULL; cif_tp *inner = NULL; FILE *f; int rc;
+    if (c->nest_buf < 0 || cif_parse_options_create(&o) != CIF_OK) return;
+    o->error_callback = nested_err;
+    f = fmemopen(BUF[c->nest_buf].n ? (void *) BUF[c->nest_buf].p : (void *) "", BUF[c->nest_buf].n, "rb");
+    if (f) {
+        rc = cif_parse(f, o, &inner);
+        fclose(f);
+        if (rc != CIF_OK) { log_sep(c); ob_printf(&c->log, "[\"bad-query\",\"the nested cif_parse answers %d\"]", rc); }
+        if (inner) cif_destroy(inner);
+    }
+    free(o);
+}
+
 static void cmd_parse(toks *t) {
     pctx c; struct cif_parse_opts_s *o = NULL; cif_tp *cif = NULL, **target = NULL; int ci = -1, bi, rc, isnew = 0;
     const char *v; FILE *f; char *ws = NULL, *eol = NULL; unsigned char *tmp;
@@ -292,7 +345,10 @@ static void cmd_parse(toks *t) {
     else o->error_callback = err_cb;
     if ((v = kv(t, "rej"))) { c.reject_at = atoi(v); v = strchr(v, ':'); c.reject_code = v ? atoi(v + 1) : CIF_CLIENT_ERROR; }
     if ((v = kv(t, "h")) && atoi(v)) { o->handler = &HANDLER; c.log_handlers = atoi(v) > 0 ? 1 : 0; if (atoi(v) == 2) c.log_handlers = 0; }
-    if ((v = kv(t, "syn")) && atoi(v)) { o->whitespace_callback = s_ws; o->keyword_callback = s_kw; o->dataname_callback = s_dn; c.log_syntax = 1; }
+    if ((v = kv(t, "syn")) && atoi(v)) { o->whitespace_callback = s_ws; o->keyword_callback = s_kw; o->dataname_callback = s_dn; c.log_syntax = atoi(v); c.doc_units = BUF[bi].n; }
+    if ((v = kv(t, "setcat"))) c.setcat = atoi(v);
+    c.nest_buf = -1;
+    if ((v = kv(t, "nest"))) { const char *q = strchr(v, ':'); c.nest_at = atoi(v); c.nest_buf = q ? slot(q + 1, 'B', NBUF) : -1; if (!o->handler) o->handler = &HANDLER; }
     parse_prog(kv(t, "prog"), &c);
     o->user_data = &c;
     f = fmemopen(BUF[bi].n ? (void *) BUF[bi].p : (void *) "", BUF[bi].n, "rb");
@@ -302,8 +358,9 @@ static void cmd_parse(toks *t) {
     fclose(f);
     if (isnew && ci >= 0) { if (CIFS[ci]) cif_destroy(CIFS[ci]); CIFS[ci] = cif; }
     else if (isnew && cif) cif_destroy(cif);
-    ob_printf(&OUT, "{\"rc\":%d,\"nerr\":%d,\"errs\":[%s],\"ncalls\":%d,\"after_stop\":%d,\"log\":[%s]}", rc, c.nerr, c.errs.s ? c.errs.s : "",
-              c.ncalls, c.bad_after_stop, c.log.s ? c.log.s : "");
+    ob_printf(&OUT, "{\"rc\":%d,\"nerr\":%d,\"errs\":[%s],\"ncalls\":%d,\"after_stop\":%d,", rc, c.nerr, c.errs.s ? c.errs.s : "", c.ncalls, c.bad_after_stop);
+    if (c.log_syntax == 2) ob_printf(&OUT, "\"ws_events\":%ld,\"ws_total\":%ld,\"ws_bad\":%ld,", c.ws_events, c.ws_total, c.ws_bad);
+    ob_printf(&OUT, "\"log\":[%s]}", c.log.s ? c.log.s : "");
     free(o); h_free(ws); h_free(eol); h_free(c.prog_idx); h_free(c.prog_resp); h_free(c.log.s); h_free(c.errs.s);
 }
 
@@ -729,6 +786,9 @@ static void exec_cmd(toks *t) {
         { size_t i; ob_puts(&OUT, "{\"rc\":0,\"hex\":\""); ob_reserve(&OUT, BUF[bi].n * 2 + 8);
           for (i = 0; i < BUF[bi].n; i++) { static const char hx[] = "0123456789abcdef"; OUT.s[OUT.n++] = hx[BUF[bi].p[i] >> 4]; OUT.s[OUT.n++] = hx[BUF[bi].p[i] & 15]; }
           OUT.s[OUT.n] = 0; ob_puts(&OUT, "\"}"); } return; }
+    if (strcmp(c, "bytes.eq") == 0) { /* bytes.eq Bx By */ NEED(3); { int a = slot(t->tok[1], 'B', NBUF), b = slot(t->tok[2], 'B', NBUF);
+        if (a < 0 || b < 0) { ob_puts(&OUT, "ERR slot"); return; }
+        ob_printf(&OUT, "{\"rc\":0,\"equal\":%d}", BUF[a].n == BUF[b].n && (BUF[a].n == 0 || memcmp(BUF[a].p, BUF[b].p, BUF[a].n) == 0)); } return; }
     if (strcmp(c, "bytes.check") == 0) { /* properties of written output: magic, UTF-8 validity, longest line in code points, CIF 1.1 character set */
         NEED(2); { int bi = slot(t->tok[1], 'B', NBUF); size_t i = 0, n; const unsigned char *p; long maxline = 0, cur = 0, nlines = 1; int utf8ok = 1, c11 = 1, magic = 0, hascr = 0;
           if (bi < 0) { ob_puts(&OUT, "ERR slot"); return; }
